@@ -24,9 +24,11 @@ func TestC03Delivery(t *testing.T) {
 		var why string
 		ok, dump := vrun.Watchdog(180*time.Second, func() { out, why = downlib.Run(s) })
 		if !ok {
-			r := vrun.Inconcl("wall-clock watchdog fired")
+			r := vrun.WatchdogVerdict("ReadDataPoints never returned")
 			r.Desc = s
-			r.Witness = map[string]any{"dump_head": dump[:min(len(dump), 5000)]}
+			if r.Verdict == vrun.Inconclusive {
+				r.Witness = map[string]any{"dump_head": dump[:min(len(dump), 5000)]}
+			}
 			return r
 		}
 		if out == nil {
